@@ -334,13 +334,24 @@ class PiecewiseLinearMap(Contract):
     timeout_ms = 20000
 
     def args(self, S, variant):
+        v, a, b = S.real("v"), S.real("a"), S.real("b")
+        if S.concrete:
+            # native replay: the smallest real dict that satisfies the variant's precondition
+            va, vb, vv = S.real("M.val(a)"), S.real("M.val(b)"), S.real("M.val(v)")
+            m = {"empty": {}, "at-key": {v: vv}, "between": {a: va, b: vb}, "below": {a: va}, "above": {b: vb}}[variant]
+            return dict(v=v, mapping=m, _a=a, _b=b, _variant=variant)
         M = _ghost.SymMapping("M")
-        return dict(v=S.real("v"), mapping=M, _a=S.real("a"), _b=S.real("b"), _variant=variant)
+        S.ctx.symbols["M.val(a)"] = M.val(a.t)
+        S.ctx.symbols["M.val(b)"] = M.val(b.t)
+        S.ctx.symbols["M.val(v)"] = M.val(v.t)
+        return dict(v=v, mapping=M, _a=a, _b=b, _variant=variant)
 
     def requires(self, a):
         import z3
         from pyvc.sym import SymBool
         M = a.mapping
+        if isinstance(M, dict):
+            return {"empty": True, "at-key": True, "between": a._a < a.v < a._b, "below": a.v < a._a, "above": a.v > a._b}[a._variant]
         dom = lambda x: SymBool(M.dom(x.t))
         M.add_point(a.v)
         if a._variant == "empty":
@@ -368,7 +379,7 @@ class PiecewiseLinearMap(Contract):
     def _post(a, r):
         from pyvc.sym import SymNum
         M = a.mapping
-        val = lambda x: SymNum(M.val(x.t))
+        val = (lambda x: M[x]) if isinstance(M, dict) else (lambda x: SymNum(M.val(x.t)))
         if a._variant == "empty":
             return eq(r, a.v)
         if a._variant == "at-key":
